@@ -28,6 +28,7 @@ def check(ctx: Ctx, ev: Evidence) -> list[Finding]:
     ev.rule("C06-R2", "deferred NAK batching: capacity from the maximum packet length; append-then-flush at capacity; remainder flushed after the loop", 4)
     ev.rule("C06-R3", "requests come from the tracker (deferred) resp. the detected gap (immediate); scopes enclose them", 3)
     ev.rule("C06-R4", "nothing missing => no NAK and completion; deferred NAKs only while something is recorded missing", 2)
+    ev.rule("C06-R6", "a detected gap is recorded in the tracker whatever the NAK mode; file data before the Metadata records the whole extent from offset 0", 3)
     ev.rule("C06-R5", "EOF (no error): progress > EOF size declares the size fault, progress < EOF size records the tail gap", 2)
     a = ctx.ats("dest")
     h = a.h
@@ -92,6 +93,27 @@ def check(ctx: Ctx, ev: Evidence) -> list[Finding]:
             completes = any(y.kind == "store" and y.name == "DestStateWrapper.step" and ename(y.args[0]) == "TRANSFER_COMPLETION" for y in evs[max(0, i - 3):i + 1])
             rep("C06-R4", f"nothing missing: deferred procedure ends with completion={completes}, NAKs afterwards={len(later_nak)}", completes and not later_nak,
                 "with nothing recorded missing the deferred procedure does not proceed to completion without sending a NAK", e, x.site)
+    # ---- R6: gap bookkeeping vs NAK mode, extent recorded before metadata
+    from ..atsq import cfg_of
+    modes_gap: set = set()
+    for e in a.edges:
+        if e.label != ("state_machine", "FD") or e.exc is not None:
+            continue
+        for x in e.ev:
+            if x.kind == "tracker" and x.name == "add_lost_segment":
+                seg = x.args[0]
+                mm = h.ew(x.watch, "_params.acked_params.metadata_missing")
+                if mm is True:
+                    start = seg.items[0] if isinstance(seg, Tup) else None
+                    rep("C06-R6", f"file data before the Metadata: recorded extent starts at {start!r}", start == 0,
+                        "file data received before the Metadata records only part of the extent received so far: earlier holes are never requested", e, x.site)
+                elif isinstance(seg, Tup) and "last_end_offset" in repr(seg.items[0]):
+                    modes_gap.add(cfg_of(e, "remote_cfg.immediate_nak_mode"))
+    for mode in (True, False):
+        ok = mode in modes_gap or "<untested>" in modes_gap
+        ev.inst("C06-R6", f"gap (last end, offset) recorded in the tracker with immediate_nak_mode={mode}: {ok}", "ok" if ok else "violation")
+        if not ok:
+            out.append(Finding("C06-R6", f"dest handler | gap not recorded with immediate_nak_mode={mode}", f"with immediate_nak_mode={mode} a detected gap is not recorded in the lost-segment tracker: it is never requested", "src/cfdppy/handler/dest.py"))
     # ---- R2 syntax tree of the deferred builder
     # anchor by content: the function of the destination handler that asks the library for the NAK capacity
     cands = [f for f in prog.functions.values() if f.cls == DH and any(isinstance(n, ast.Call) and "get_max_seg_reqs_for_max_packet_size_and_pdu_cfg" in ast.unparse(n.func) for n in ast.walk(f.node))]
